@@ -368,11 +368,11 @@ class Gen:
         first = "{" + name + "}"
         if name == "admonition":
             first += " A title"
-        if style == "colon":
-            head += [":class: c1"] + ([":name: nm-%d-%d" % (self.n, self.r.randint(0, 99999))] if named else [])
-        elif style == "dash":
-            head += ["---", "class: c2", "---"]
-        if style == "colon" and nblank == 0 and body.lines and body.lines[0].lstrip().startswith(":"):
+        if style.startswith("colon"):
+            head += [":class: c1"] + ([":name: nm-%d-%d" % (self.n, self.r.randint(0, 99999))] if named else []) + ([":nosuchoption: 1"] if style.endswith("-bad") else [])
+        elif style.startswith("dash"):
+            head += ["---", "class: c2"] + (["nosuchoption: 1"] if style.endswith("-bad") else []) + ["---"]
+        if style.startswith("colon") and nblank == 0 and body.lines and body.lines[0].lstrip().startswith(":"):
             nblank = 1  # otherwise the body's first line would be read as one more option line
         if style == "none" and nblank == 0 and body.lines and body.lines[0].lstrip().startswith(":") and not (colon and body.lines[0].startswith(":::")):
             nblank = 1
@@ -449,7 +449,8 @@ def soup_vocab():
         "```{sidebar} S", "```{topic} T", "```{rubric} R", "```{epigraph}", "```{parsed-literal}", "```{line-block}", "```{meta}", "```{replace} x", "```{unicode} 0x41",
         "```{date}", "```{target-notes}", "```{sectnum}", "```{header}", "```{footer}", "```{title} T", "```{default-role} emphasis", "```{highlight} c",
         ":class: x", ":name: n", ":width: 10px", ":nosuch: 1", ":align: bad", "---\nclass: x\n---", "key: value", "(t)=", "(t)= x", "% c", "+++", "+++ x",
-        "[^a]", "[^a]: def", "[^1]: d1", "[^1]", "[a]: http://x", "[a]: <b c> 'T'", "[a]", "[a][]", "[x][a]", "[x](#t)", "[](#t)", "[](<#a b>)", "[x](y.md)", "[x](y.md#z)",
+        "[^a]", "[^a]: def", "[^1]: d1", "[^1]", "[^²]", "[^²]: superscript two", "[^١]: arabic-indic one", "x[^①]", "[^①]: circled", "[^½]: half", "[^-1]: neg", "[^1.5]: f", "[^01]: lead zero", "[^10]: ten",
+        "<inv://[a>", "[x](inv://[a#b)", "[x](wiki://[a)", "<wiki://[::1>", "[x](http://[bad)", "<https://[::1]:99999/x>", "[x](wiki:%zz)", "[x](inv:\x00)", "[a]: http://x", "[a]: <b c> 'T'", "[a]", "[a][]", "[x][a]", "[x](#t)", "[](#t)", "[](<#a b>)", "[x](y.md)", "[x](y.md#z)",
         "<project:#t>", "<project:y.md>", "<path:f.txt>", "<inv:#x>", "[x](inv:k:d:t#n*)", "<https://a.b>", "<a@b.c>", "![a](i.png)", "![a](i.png){w=10px .c #i}", "![](<>)",
         "{name}`x`", "{abbr}`A (B)`", "{math}`x`", "{ref}`t`", "{doc}`d`", "{nosuch}`x`", "{raw}`x`", "{code}`x`", "{sub}`2`", "{}`x`", "{a b}`x`",
         "$x$", "$$x$$", "$$\nx\n$$ (lbl)", "\\begin{equation}\nx\n\\end{equation}", "\\begin{align*}a\\end{align*}", "{{ k }}", "{{ k | upper }}", "{{ 1/0 }}", "{{ env }}", "{{ x.y.z }}", "{{",
@@ -509,6 +510,8 @@ FRONT_SOUP = [
     "a: 1", "title: T", "myst:\n  enable_extensions: [deflist]", "myst: 1", "myst: [a]", "myst:\n  nosuch: 1", "myst:\n  heading_anchors: x", "myst:\n  url_schemes: [http]",
     "myst:\n  url_schemes:\n    http: null\n    x: 'https://e/{{path}}'", "myst:\n  substitutions:\n    k: v", "substitutions:\n  k: '{{ k }}'", "substitutions: 3", "html_meta:\n  a: b", "html_meta:\n  'a=b c': d",
     "html_meta: x", "a: *x", "a: &x 1\nb: *x", "a: !!python/object:os.system x", "? [a]\n: b", "- a\n- b", "just text", "a: [", "a:\n\tb", "<<: {a: 1}", "date: 2020-01-01", "n: 1.5", "b: true", "x: ~",
+    "a: {b: 2020-01-01}", "a: [2020-01-01, 12:30:00]", "a: !!binary aGVsbG8=", "a: !!set {x, y}", "a: !!timestamp 2001-12-14t21:59:43.10-05:00", "a: {b: {c: !!binary aGk=}}", "a: .inf", "a: .nan", "a: 0o17", "a: !!omap [x: 1]", "a: !!pairs [x: 1, x: 2]",
+    "title: {x: 1}", "title: [a, b]", "title: 2020-01-01", "author: 5", "date: !!binary aGk=", "abstract: [1, 2]", "dedication: {a: b}",
     "author: '*me*'", "abstract: |\n  multi\n  line", "dedication: '[x](#y)'", "myst:\n  title_to_header: true\ntitle: '# T'", "myst:\n  enable_extensions: linkify", "myst:\n  fence_as_directive: [note]",
     "myst:\n  heading_slug_func: os.path.basename", "myst:\n  heading_slug_func: nosuch.mod", "myst:\n  suppress_warnings: ['myst.header']", "myst:\n  sub_delimiters: ['[', ']']", "myst:\n  sub_delimiters: 'ab'",
     "myst:\n  number_code_blocks: [python]", "myst:\n  footnote_sort: false", "myst:\n  all_links_external: true", "myst:\n  commonmark_only: true", "myst:\n  disable_syntax: [emphasis, nosuchrule]", "myst:\n  html_meta: 1",
@@ -533,7 +536,7 @@ def random_config(rng, allow_modes=True):
     if rng.random() < 0.2:
         kw["all_links_external"] = True
     if rng.random() < 0.2:
-        kw["url_schemes"] = rng.choice([["http"], {"http": None, "x": "https://e/{{path}}#{{fragment}}"}, {"gh": {"url": "https://g/{{path}}", "title": "{{path}}", "classes": ["c"]}}, ("https", "mailto")])
+        kw["url_schemes"] = rng.choice([["http"], {"http": None, "wiki": "https://w/{{path}}?{{query}}#{{fragment}}", "x": "https://e/{{path}}#{{fragment}}"}, {"gh": {"url": "https://g/{{path}}", "title": "{{path}}", "classes": ["c"]}}, ("https", "mailto")])
     if rng.random() < 0.4:
         kw["substitutions"] = dict(SUBSTITUTIONS)
     if rng.random() < 0.15:
